@@ -1,9 +1,9 @@
-(** Extraction of the lexer model (family Lex: C19, C20) to OCaml.  ExtrOcamlBasic only. *)
+(** Extraction of the Build model (C14) to OCaml.  ExtrOcamlBasic only. *)
 From Coq Require Extraction ExtrOcamlBasic.
 From Coq Require Import NArith ZArith.
-From TLV Require Lex.LexModel Lex.LexParse1Model Lex.LexParse2Model.
+From TLV Require Build.BuildModel.
 Extraction Blacklist String List Nat Int.
 Separate Extraction
   BinNat.N.add BinNat.N.mul BinNat.N.div_eucl BinNat.N.eqb BinNat.N.ltb BinNat.N.of_nat BinNat.N.to_nat
   BinInt.Z.add BinInt.Z.mul BinInt.Z.opp BinInt.Z.of_N BinInt.Z.to_N BinInt.Z.ltb
-  TLV.Lex.LexModel TLV.Lex.LexParse1Model TLV.Lex.LexParse2Model.
+  TLV.Build.BuildModel.
